@@ -134,10 +134,42 @@ type Explorer struct {
 	maxDepthSeen int
 	stopped      string
 	deadline     time.Time
-	witnesses    []map[string]any
+	witnesses    []witnessCand // candidate pool, sorted by key (see runPath)
 	wantWitness  int
-	witnessAll   bool // replay every complete path natively (conformance harnesses)
 	witnessSeen  int
+}
+
+// witnessPoolFactor: candidates kept per witness wanted (natively skipped candidates do not count).
+const witnessPoolFactor = 4
+
+type witnessCand struct {
+	key uint64
+	rec map[string]any
+}
+
+// witnessKey hashes a decision trace (FNV-1a, then a finaliser) together with the run's seed.
+func witnessKey(seed int64, trace []decision) uint64 {
+	h := uint64(14695981039346656037)
+	mix := func(v uint64) {
+		for i := 0; i < 8; i++ {
+			h ^= v & 0xff
+			h *= 1099511628211
+			v >>= 8
+		}
+	}
+	mix(uint64(seed))
+	for _, d := range trace {
+		mix(uint64(d.choice))
+		if d.hasPay {
+			mix(d.payload)
+		}
+	}
+	h ^= h >> 33
+	h *= 0xff51afd7ed558ccd
+	h ^= h >> 33
+	h *= 0xc4ceb9fe1a85ec53
+	h ^= h >> 33
+	return h
 }
 
 func NewExplorer(P *Program, entry *ssa.Function, name string) *Explorer {
@@ -321,11 +353,17 @@ func (w *Worker) runPath(prefix []decision) {
 	res.Steps = ex.steps
 	res.Decisions = len(ex.trace)
 	if res.End == "complete" && e.wantWitness > 0 {
+		// Witness candidates are the complete paths with the smallest hash of (seed, decision trace): the choice
+		// does not depend on the order in which workers finish paths or in which alternatives are taken, and it
+		// is spread over the whole path tree. The pool is larger than the number of witnesses wanted because a
+		// harness may declare a drawn case not realisable natively (vr.SkipNative): the native side replays the
+		// candidates in hash order until wantWitness of them ran (rt/replay.go), so that cases skipped natively
+		// do not use up the quota.
+		key := witnessKey(e.P.seed, ex.trace)
+		pool := e.wantWitness * witnessPoolFactor
 		e.mu.Lock()
 		e.witnessSeen++
-		// reservoir-free: take the first few, then every 2^k-th complete path
-		n := e.witnessSeen
-		take := len(e.witnesses) < e.wantWitness && (e.witnessAll || n <= 2 || n&(n-1) == 0)
+		take := len(e.witnesses) < pool || key < e.witnesses[len(e.witnesses)-1].key
 		e.mu.Unlock()
 		if take {
 			if m, ok := ex.currentModel(); ok {
@@ -336,8 +374,12 @@ func (w *Worker) runPath(prefix []decision) {
 				sort.Strings(reached)
 				wrec := map[string]any{"draws": ex.modelDraws(m), "reached": reached, "notes": append([]string(nil), ex.notes...)}
 				e.mu.Lock()
-				if len(e.witnesses) < e.wantWitness {
-					e.witnesses = append(e.witnesses, wrec)
+				i := sort.Search(len(e.witnesses), func(i int) bool { return e.witnesses[i].key >= key })
+				e.witnesses = append(e.witnesses, witnessCand{})
+				copy(e.witnesses[i+1:], e.witnesses[i:])
+				e.witnesses[i] = witnessCand{key: key, rec: wrec}
+				if len(e.witnesses) > pool {
+					e.witnesses = e.witnesses[:pool]
 				}
 				e.mu.Unlock()
 			}
